@@ -43,7 +43,8 @@ CHECKS = {
         'technique': 'Hypothesis rule-based state machine vs dict model (ids in arbitrary order, stale index, append, merge)',
         'text': 'Stateful PBT over identified stores: distinct int64 ids in arbitrary order, lookups of present/absent ids '
         'immediately after adds, across sync/close/reopen/append, rejected unidentified additions, and a terminal merge with '
-        'further stores followed by lookup of every id, against a dictionary model.',
+        'further stores followed by lookup of every id, against a dictionary model; one store with more than 1024 (thorough 2048) trajectories '
+        'per run with every id looked up before/after sync and after reopening.',
         'note': 'Lookup in a never-saved in-memory store is not claimed. Ids unique; fill value excluded.',
     },
     'C12': {
@@ -124,12 +125,13 @@ CHECKS = {
     },
     'C20': {
         'category': 'exploration',
-        'technique': 'trace-driven deterministic scheduler: exhaustive DFS over line-level interleavings + Hypothesis sequential histories',
+        'technique': 'trace-driven deterministic scheduler: exhaustive DFS over line-level interleavings, bytecode-level schedules with one (thorough: two) preemptions, Hypothesis sequential histories',
         'text': 'Two real threads race to create their first store; a settrace hook stops each before every store.py source line '
         'in the constructor guard and a controller enumerates all scheduling decisions by depth-first re-execution '
-        '(exhaustive at line granularity); exactly one attempt must succeed. Sequential histories over three threads '
-        '(create/close/drop) against the first-creator-owns model.',
-        'note': 'Line granularity, CPython with GIL; in-memory stores only (no HDF5 code runs concurrently).',
+        '(exhaustive at line granularity); exactly one attempt must succeed. The same at bytecode granularity (f_trace_opcodes) for every '
+        'schedule with one preemption (thorough: two). Sequential histories over three threads (create via factory, subclass or plain '
+        'constructor, open for read/append, close, drop, failing constructor calls) against the first-creator-owns model.',
+        'note': 'Exhaustive at line granularity only; bytecode level is preemption-bounded. CPython with GIL; racing threads create in-memory stores only (no HDF5 code runs concurrently).',
     },
     'C01': {
         'category': 'exploration',
